@@ -200,23 +200,6 @@ def abortSession (w : World) (sid : Nat) : World :=
   if sess.explicit then failTx w sess
   else w.setSession { sess with pending := none, waitsFor := 0 }
 
-/-! ## schema instantiation -/
-
-def instantiateBucket (w : World) (sch : BucketSchema) (bucket : String) : World :=
-  if w.buckets.contains bucket then w else
-  let tables := sch.tables.map (fun t =>
-    { t with name := bucket ++ "." ++ t.name,
-             triggers := t.triggers.map (fun tr => { tr with fname := bucket ++ "." ++ tr.fname }),
-             fks := t.fks.map (fun fk => { fk with refTable := bucket ++ "." ++ fk.refTable }) })
-  { w with
-    tables := w.tables ++ tables
-    funcs := w.funcs ++ sch.funcs.map (fun f => (bucket ++ "." ++ f.name, f))
-    seqs := w.seqs ++ sch.seqs.map (fun s => { name := bucket ++ "." ++ s })
-    -- composite types and enums are looked up by bare name (every bucket defines the same ones)
-    types := { composites := w.types.composites ++ sch.composites.filter (fun c => !(w.types.composites.any (·.1 == c.1))),
-               enums := w.types.enums ++ sch.enums.filter (fun e => !(w.types.enums.any (·.1 == e.1))) }
-    buckets := w.buckets ++ [bucket] }
-
 /-! ## canonical dump -/
 
 open Lean in
